@@ -8,6 +8,7 @@ ONE os.write on an O_APPEND descriptor (atomic for regular files), timestamps fr
 (CLOCK_MONOTONIC: one system-wide clock, comparable between processes).
 
     {"id": ID, "it": MESON_TEST_ITERATION, "pid": pid, "ev": "START"|"TERM"|"TICK"|"END", "t": ns}
+    (a leaked helper, see leak=, logs CSTART|CTERM|CTICK|CEND with its own pid and "ppid")
 
 START is written after the process exists and after the signal disposition is in place; END is written before the
 process exits.  The interval [START, END] (or [START, TERM], or the point START for a probe that was killed) lies
@@ -24,6 +25,10 @@ by env C12_SCRIPT (default: c12_script.json next to the log), an object keyed by
                        handle: SIGTERM handler logs TERM and exits 143; ignore: handler logs TERM and sleeps on,
                        logging TICK every 20 ms from then on (proof of life after the ignored SIGTERM)
     cap=S              hard lifetime cap in seconds (SIGALRM, default action), default 120
+    leak=MS            right after START fork a helper that inherits stdout/stderr (keeps the harness' pipes open),
+                       logs CSTART (its own pid, "ppid": the probe), sleeps MS and logs CEND; the probe itself goes
+                       on as scripted (usually: exits at once).  leakterm=default|ignore: the helper's SIGTERM
+                       disposition (ignore: logs CTERM, then CTICK every 20 ms)
 
 This file imports nothing from meson and nothing from /verif.
 """
@@ -32,6 +37,38 @@ import os
 import signal
 import sys
 import time
+
+
+def helper(fd: int, tid: str, it: int, ppid: int, leak_ms: float, leakterm: str, cap: int) -> None:
+    """The leaked descendant: same process group and same stdout/stderr as the probe, outlives it."""
+    me = os.getpid()
+    head = '{"id": %s, "it": %d, "pid": %d, "ppid": %d, "ev": "' % (json.dumps(tid), it, me, ppid)
+    termed = [0]
+
+    def ev(name: str) -> None:
+        os.write(fd, (head + name + '", "t": %d}\n' % time.monotonic_ns()).encode())
+
+    def on_term(signum, frame):  # type: ignore
+        termed[0] += 1
+        ev('CTERM')
+
+    try:
+        signal.alarm(max(1, cap))
+        signal.signal(signal.SIGTERM, on_term if leakterm == 'ignore' else signal.SIG_DFL)
+        ev('CSTART')
+        end = time.monotonic_ns() + int(leak_ms * 1_000_000)
+        ticks = 0
+        while True:
+            left = end - time.monotonic_ns()
+            if left <= 0:
+                break
+            time.sleep(min(left / 1e9, 0.02))
+            if termed[0] and ticks < 500:
+                ticks += 1
+                ev('CTICK')
+        ev('CEND')
+    finally:
+        os._exit(0)
 
 
 def main() -> int:
@@ -95,6 +132,15 @@ def main() -> int:
         signal.signal(signal.SIGTERM, on_term_ignore)
 
     ev('START')
+    leak_ms = float(script.get('leak', '0') or 0)
+    if leak_ms > 0:
+        try:
+            sys.stdout.flush()
+        except OSError:
+            pass
+        cpid = os.fork()
+        if cpid == 0:
+            helper(fd, tid, it, pid, leak_ms, script.get('leakterm', 'default'), cap)
     end = time.monotonic_ns() + dur_ns
     ticks = 0
     while True:
